@@ -658,6 +658,58 @@ Proof.
   exists br. rewrite Hin, <- (proj1 (take_chunks_spec later)). auto.
 Qed.
 
+(* ---- after the last kept-alive request: a malformed request is answered 400, a timed-out wait 408; then close ---- *)
+Lemma serve_conn_bad_request cs : parse_request_chunked ipp p cs = Err E_Request ->
+  serve_conn ipp rs date p (map Some cs) = ([frame_400 date], EBadRequest).
+Proof.
+  intro H. unfold serve_conn. rewrite conn_loop_unfold by (destruct cs; reflexivity).
+  pose proof (take_chunks_app_some cs []) as T. rewrite app_nil_r in T. rewrite T. cbn [take_chunks fst snd].
+  rewrite app_nil_r, H. reflexivity.
+Qed.
+
+Theorem conn_then_bad_request : forall css reqs bad,
+  Forall2 (one_request ipp p) css reqs -> Forall (stays_open rs date) reqs ->
+  wf_chunks bad -> parse_request_chunked ipp p bad = Err E_Request ->
+  serve_conn ipp rs date p (aligned_input css (map Some bad)) =
+  (flat_map (response_of rs date) reqs ++ [frame_400 date], EBadRequest).
+Proof.
+  intros css reqs bad HA HO Wb HB.
+  rewrite (conn_one_response_per_request css reqs _ HA (proj2 (wf_input_map_some bad) Wb)).
+  rewrite (serve_conn_bad_request bad HB). now apply expected_all_open.
+Qed.
+
+Theorem conn_then_timeout : forall css reqs t,
+  Forall2 (one_request ipp p) css reqs -> Forall (stays_open rs date) reqs -> wf_input t ->
+  serve_conn ipp rs date p (aligned_input css (None :: t)) =
+  (flat_map (response_of rs date) reqs ++ [frame_408 date], ETimeout).
+Proof.
+  intros css reqs t HA HO Wt.
+  rewrite (conn_one_response_per_request css reqs (None :: t) HA); [|constructor; [discriminate|assumption]].
+  rewrite serve_conn_timeout. now apply expected_all_open.
+Qed.
+
+(* F01 in general: one read of at most cap bytes delivers a complete request r1 followed by ANY further bytes r2
+   (typically the next pipelined request(s)).  The connection behaves exactly as if r2 had never been sent: r2 is
+   neither answered nor rejected — it is dropped with the first request's BufReader. *)
+Theorem conn_readahead_general : forall r1 r2 req,
+  (length (r1 ++ r2) <= cap)%nat -> parse_request_flat ipp p r1 = Ok (req, []) ->
+  serve_conn ipp rs date p [Some (r1 ++ r2)] = expected rs date [req] ([], EClosedByClient) /\
+  serve_conn ipp rs date p [Some (r1 ++ r2)] = serve_conn ipp rs date p [Some r1].
+Proof.
+  intros r1 r2 req Hc HF.
+  assert (G : forall r2', (length (r1 ++ r2') <= cap)%nat ->
+              serve_conn ipp rs date p [Some (r1 ++ r2')] = expected rs date [req] ([], EClosedByClient)).
+  { intros r2' Hc'. destruct (parse_request_chunked_coalesced ipp p r1 r2' req Hc' HF) as (br & HP & _ & Hin).
+    unfold serve_conn. rewrite conn_loop_unfold by reflexivity. cbn [take_chunks fst snd].
+    match goal with |- context [parse_request_chunked ipp p ?c] =>
+      replace (parse_request_chunked ipp p c) with (Ok (req, br)) by (symmetry; exact HP) end.
+    cbn [expected]. destruct (is_upgrade req); [reflexivity|]. destruct (respond rs date req); [|reflexivity].
+    destruct (keep_alive_of req); [|reflexivity]. rewrite Hin. cbn [map app input_weight fold_right].
+    rewrite Nat.add_0_r, Nat.add_1_r. reflexivity. }
+  split; [now apply G|]. rewrite (G r2 Hc). specialize (G []). rewrite app_nil_r in G. rewrite G; [reflexivity|].
+  rewrite app_length in Hc. lia.
+Qed.
+
 End Main.
 
 (* ================================================================================================================ *)
